@@ -32,6 +32,21 @@ CHECKS["C20"] = dict(
     technique="Lean 4 invariant over operation histories (sticky tolerance state) + fresh-fork vs after-history differential runs",
     design="§7 C20")
 
+CHECKS["C10"] = dict(
+    text="Partial by nature (the numbers come from a non-linear solver). Machine-checked (Lean 4) for EVERY solver answer: the "
+         "extraction step returns a sub-list of the offered cells, so non-overlap and inside-the-die are inherited through the whole "
+         "refine/optimise loop (loop invariant by induction); every listed ratio is in [0,1]; a movable hard module is exactly "
+         "translated and/or mirrored (mirrored only if flippable) with the reported centre as its area-weighted centroid. Under the "
+         "named, run-time-monitored solver post-condition SolverPost (ratios >= 0, cell rows <= 1+tol, centres in the die): cell "
+         "totals <= 1+tol, centres in the die, fixed modules keep rectangles and own their cells exactly {m:1}. The model is tied to "
+         "tools/glbfloor/optimization.py by replaying every captured extract_solution call through the Lean model (Float and Rat), and "
+         "all clauses are evaluated with exact arithmetic on real multiprocess glbfloor runs.",
+    note="GEKKO/IPOPT answer is an input (hypothesis SolverPost, monitored on every instance); refine / must_be_refined / "
+         "create_initial_allocation are parameters (C02/C12/C03); model fidelity sampled, not proved; IEEE rounding executed, not proved; "
+         "runs where GEKKO raises are outside the property.",
+    technique="Lean 4 proofs with the solver answer as a parameter + replay of captured solver answers through the model + clause evaluation on real runs",
+    design="§7 C10, §11")
+
 NOT_APPLICABLE = {}
 
 def main():
